@@ -5,7 +5,7 @@
    Model: Yaml/Walk.v (walker, generic in sources and visitor) + Yaml/Merge2.v (Merger visitor, directives).
    [sch] (openapi projection), [opts] (infer / prepend / AssociativeSequenceKeys) and [nonstr]
    (yaml.IsValueNonString) are universally quantified parameters. *)
-From KV Require Import Yaml.Walk Yaml.WalkProofs Yaml.WalkFields Yaml.Merge2 Yaml.Merge2Proofs Yaml.Merge2Identity Yaml.Merge2IdentityProofs
+From KV Require Import Yaml.Walk Yaml.WalkProofs Yaml.WalkFields Yaml.Merge2 Yaml.Merge2Proofs Yaml.Merge2Identity Yaml.Merge2IdentityProofs Yaml.Merge2Idem
      Yaml.Merge2Frame Yaml.Merge2Examples Corr.SchemaTable Yaml.Merge3 Yaml.Merge3Examples Yaml.WalkGenProofs Gen.WalkTables.
 
 (* merge2.Merge at the canonical fuel S(sum of depths) never runs out of fuel: for every schema, option
@@ -89,6 +89,27 @@ Theorem C04_idempotent_refuted :
     kmerge p t = Ok (Some r1) /\ kmerge p r1 = Ok (Some r2) /\ node_eqb r1 r2 = false.
 Proof. exact idempotent_refuted. Qed.
 Print Assumptions C04_idempotent_refuted.
+
+(* PROVED PART of idempotence (partial): on kinds whose lists are atomic (no merge strategy in [sch], inference
+   off), for patch and target that are mappings, have pairwise different keys in every mapping reached through
+   mappings ([wfk]) and -- the patch -- no "$patch" key in any mapping reached through mappings except
+   "$patch: delete" below the root ([nodir]):
+   applying the patch to the result gives the result again, as exact node equality (tags, styles, order).
+   Covers nulls (also inside added mappings), "$patch: delete" on mappings (present or absent in the target),
+   added / merged / unmentioned mappings, scalar and list replacement,
+   kind errors (the first application must succeed). The fragment is the boolean [idem_fragment];
+   [idem_example] (Yaml/Merge2Idem.v) is a non-trivial instance.
+   MISSING w.r.t. the full statement: "$patch: replace" / "$patch: merge" at mapping level and keyed lists
+   (where it is false for list-level directives, see C04_idempotent_refuted). *)
+Theorem C04_idempotent_partial :
+  forall (Sc : Type) (sch : schema Sc) (opts : wopts) (nonstr : string -> bool),
+    atomic_lists sch opts ->
+    forall p t r : node,
+      idem_fragment p t = true ->
+      merge2 sch opts nonstr (Some p) (Some t) = Ok (Some r) ->
+      merge2 sch opts nonstr (Some p) (Some r) = Ok (Some r).
+Proof. exact (@merge2_idempotent). Qed.
+Print Assumptions C04_idempotent_partial.
 
 (* "replaces what $patch: replace addresses" is FALSE for an element of a keyed list in prepend mode
    (the mode kustomize builds use): the element is left exactly as it was
